@@ -882,9 +882,114 @@ fn record(out_path: &str, n_int: usize, n_float: usize, cases_path: Option<&str>
     res
 }
 
+// ------------------------------------------------------------------ float folds ($+ / $* over floats, C11)
+
+/// `vh arith folds <out.ndjson> <n_random>`: for float sequences whose partial sums / products round (or are infinite,
+/// NaN, signed zeros), record (1) every step `acc op x` of the documented left fold, computed by the implementation's own
+/// binary operator (a `float2` record each; the IEEE result is compared with the host's f64), and (2) the value of
+/// `xs~ $+` / `xs~ $*` in every execution form (one `ffold` record).  Trace_Arith chains the steps through its memo and
+/// accepts the `ffold` record only if every form gave the end of the chain, bit for bit.
+fn folds(out_path: &str, n_random: usize) -> Value {
+    let mut rng = Rng::from_env(0xC11F);
+    let mut cache = Cache::default();
+    let mut mm = Mismatches::new(100);
+    let mut file = std::io::BufWriter::new(std::fs::File::create(out_path).expect("cannot create the trace file"));
+    let inf = f64::INFINITY;
+    let mut table: Vec<Vec<f64>> = vec![
+        vec![], vec![1.5], vec![-0.0], vec![-0.0, -0.0], vec![0.0, -0.0], vec![1.0, 1e-16, 1e-16], vec![0.1; 10], vec![inf, 1.0], vec![inf, -inf],
+        vec![1e16, 1.0, 1.0, 1.0, 1.0, 1.0, 1.0, 1.0, 1.0], vec![1e308, 1e308, -1e308], vec![-1e308, 1e308, 1e308], vec![0.1, 0.2, 0.3],
+        vec![1e-200, 1e200, 1e200], vec![1e200, 1e200, 1e-200], vec![3.0, 0.0, f64::NAN], vec![0.0, inf], vec![0.0, -3.0, inf], vec![f64::NAN, 1.0],
+        vec![1.1, 1.1, 1.1, 1.1], vec![1e16, -1e16, 1.0], vec![1.0, 1e16, -1e16], vec![5e-324, 5e-324, 0.5], vec![2.0, 0.5, 3.0, 1.0 / 3.0],
+        vec![1e16, 3.0, -1e16, 3.0, 1e16, 3.0, -1e16], vec![0.7, 0.1, 0.2, 0.3, 0.4, 0.5, 0.6, 0.7, 0.8, 0.9, 1.0, 1.1],
+    ];
+    let pool = [0.1, 0.2, 0.3, 1.0, -1.0, 1e16, -1e16, 1e-16, 3.5, 1e308, -1e308, 0.0, -0.0, 1.0 / 3.0, 2.5e-8, 7.0, 1e100, 1e-100, inf, -inf, f64::NAN];
+    for _ in 0..n_random {
+        let len = rng.below(13) as usize;
+        table.push((0..len).map(|_| if rng.chance(1, 6) { f64::from_bits(rand_float(&mut rng, &[])) } else { *rng.pick(&pool) }).collect());
+    }
+    let (mut records, mut folds, mut steps, mut executions) = (0u64, 0u64, 0u64, 0u64);
+    let mut samples = vec![];
+    for (si, seq) in table.iter().enumerate() {
+        for op in ["+", "*"] {
+            let id = if op == "+" { 0.0f64 } else { 1.0f64 };
+            // (1) the steps of the left fold, by the implementation's own operator
+            let step_fn = format!("(a: float, b: float) -> float {{ return a {op} b }}");
+            let mut acc = id.to_bits();
+            let mut host = id;
+            let mut chain_ok = true;
+            for x in seq {
+                let (out, _) = cache.call_api(&step_fn, true, vec![Variable::Float(f64::from_bits(acc)), Variable::Float(*x)]);
+                host = host_float(op, f64::from_bits(acc), *x);
+                let rec = json!({"t": "float2", "op": op, "a": limbs(acc), "b": limbs(x.to_bits()), "as": format!("{:?}", f64::from_bits(acc)),
+                    "bs": format!("{x:?}"), "rs": [{"f": "api", "r": out_json(&out)}], "cells": [], "nt": false});
+                writeln!(file, "{}", serde_json::to_string(&rec).unwrap()).unwrap();
+                records += 1;
+                steps += 1;
+                match out {
+                    Out::F(b) => {
+                        if b != host.to_bits() && !(f64::from_bits(b).is_nan() && host.is_nan()) {
+                            mm.push("ieee", json!({"t": "float2", "op": op, "a": format!("{:?}", f64::from_bits(acc)), "b": format!("{x:?}"),
+                                "program": format!("{step_fn} (a step of the fold)"), "expected": format!("{host:?}"), "got": format!("{:?}", f64::from_bits(b))}));
+                        }
+                        acc = b;
+                    }
+                    _ => { chain_ok = false; break; }
+                }
+            }
+            if !chain_ok {
+                mm.push("step", json!({"t": "ffold", "op": op, "a": format!("{seq:?}"), "program": step_fn, "what": "a step of the fold did not yield a float"}));
+                continue;
+            }
+            // (2) the reduction in every form
+            let arr = Variable::from(seq.iter().map(|x| Variable::Float(*x)).collect::<Vec<Variable>>());
+            let idl = Sc::F(id.to_bits()).lit().unwrap();
+            let mut forms: Vec<(&'static str, String, Out)> = vec![];
+            let f = format!("(a: [float]) -> float {{ return a~ ${op} }}");
+            forms.push(("red_param", f.clone(), cache.call_api(&f, true, vec![arr.clone()]).0));
+            let f = format!("(a: [float]) -> float {{ return a~ $ {idl} (s: float, x: float) -> float {{ return s {op} x }} }}");
+            forms.push(("fold_param", f.clone(), cache.call_api(&f, true, vec![arr.clone()]).0));
+            let f = format!("(a: [float]) -> float {{ return a~ @ (x: float) -> float {{ return x }} ${op} }}");
+            forms.push(("red_mapped", f.clone(), cache.call_api(&f, true, vec![arr.clone()]).0));
+            let f = format!("(a: [float]) -> float {{ it := a~; return it ${op} }}");
+            forms.push(("red_named", f.clone(), cache.call_api(&f, true, vec![arr.clone()]).0));
+            let f = format!("(a: [float]) -> int|float {{ pick := (b: bool) -> ()->(bool, int)|()->(bool, float) {{ if b {{ return [1]~ }} return a~ }}; it := pick(false); return it ${op} }}");
+            // (an empty array carries the element type `!` at run time: its iterator declares no float elements, and the
+            // dynamically chosen reducer is the int one — Lang.tla, `dyn`; the union route is a float fold only when non-empty)
+            if !seq.is_empty() {
+                forms.push(("red_union", f.clone(), cache.call_api(&f, true, vec![arr.clone()]).0));
+            }
+            if !seq.is_empty() && seq.iter().all(|x| cache.lit_ok(Sc::F(x.to_bits()))) {
+                let lits: Vec<String> = seq.iter().map(|x| Sc::F(x.to_bits()).lit().unwrap()).collect();
+                let program = format!("[{}]~ ${op}", lits.join(", "));
+                forms.push(("red_lit", program.clone(), run_text(&program).0));
+                let program = format!("xs := [{}]; f := () -> float {{ return xs~ ${op} }}; f(); f()", lits.join(", "));
+                forms.push(("red_captured_twice", program.clone(), run_text(&program).0));
+            }
+            executions += forms.len() as u64;
+            let rs: Vec<Value> = forms.iter().map(|(f, _, o)| json!({"f": f, "r": out_json(o)})).collect();
+            let rec = json!({"t": "ffold", "op": op, "xs": seq.iter().map(|x| limbs(x.to_bits())).collect::<Vec<_>>(),
+                "as": format!("{seq:?}"), "rs": rs, "cells": [], "nt": true,
+                "programs": forms.iter().map(|(f, p, _)| json!({"f": f, "program": p})).collect::<Vec<_>>()});
+            writeln!(file, "{}", serde_json::to_string(&rec).unwrap()).unwrap();
+            records += 1;
+            folds += 1;
+            // the end of the host's own chain, as a cross-check of the recorded steps (NaN payloads aside)
+            let _ = host;
+            if si % 9 == 2 && samples.len() < 4 {
+                samples.push(json!({"sequence": format!("{seq:?}"), "op": op, "fold": format!("{:?}", f64::from_bits(acc)),
+                    "forms": forms.iter().map(|(f, _, o)| json!({"form": f, "got": out_show(o)})).collect::<Vec<_>>()}));
+            }
+        }
+    }
+    file.flush().unwrap();
+    json!({"records": records, "folds": folds, "steps": steps, "executions": executions, "sequences": table.len(),
+        "mismatch_counts": mm.counts(), "mismatches": mm.items(), "samples": samples})
+}
+
 pub fn run(args: &[String]) -> Value {
     match args.first().map(String::as_str) {
         Some("replay") => replay(&args[1]),
+        Some("folds") => folds(&args[1], args.get(2).and_then(|s| s.parse().ok()).unwrap_or(100)),
         Some("record") => record(
             &args[1],
             args.get(2).and_then(|s| s.parse().ok()).unwrap_or(1000),
